@@ -175,8 +175,35 @@ def import_cert_blob(blob, alg):
         return None, exc
 
 
-def build_row_cert(cls, kalg, sig_alg, rnd):
-    """cls = (ctype, princ(tuple), crit(tuple), ext, casig)."""
+# listed principal names that are legal on the wire but never the wanted one
+ODD_NAMES = ['', ' ', 'p ', ' q', 'P', 'p,q', '*', 'p*', '?', 'p\x00', 'pé',
+             'q' * 300, 'ｐ', 'none', 'None']
+KEY_IDS = ['verif-id', '', 'ключ é', 'k' * 300, ' id with spaces ', 'a,b\n']
+SERIALS = [7, 0, 2 ** 64 - 1, 2 ** 32]
+
+
+_odd_counter = [0]
+
+
+def odd_principals(rnd):
+    """Odd names for one certificate.  The first name cycles through
+    ODD_NAMES deterministically (so every odd name is, over a run, the only
+    principal of some otherwise acceptable certificate); how many follow and
+    which is random."""
+    v = _odd_counter[0]
+    _odd_counter[0] += 1
+    first = ODD_NAMES[v % len(ODD_NAMES)]
+    n = [1, 1, 2, 1, 3][(v // len(ODD_NAMES)) % 5]
+    out = [first] + [rnd.choice(ODD_NAMES) for _ in range(n - 1)]
+    if rnd.random() < 0.25:
+        out.append(first)               # a duplicate
+    return out
+
+
+def build_row_cert(cls, kalg, sig_alg, rnd, key_id=None, serial=None):
+    """cls = (ctype, princ(tuple), crit(tuple), ext, casig).
+    -> (blob, cert algorithm, how the CA signature was spoilt, fields put in)
+    """
     ctype, princ, crit, ext, casig = cls
     p = pool()[kalg]
     ca, subject = p['ca'], p['k']
@@ -193,15 +220,39 @@ def build_row_cert(cls, kalg, sig_alg, rnd):
         how = rnd.choice(['flip', 'otherkey', 'body'])
         if how == 'otherkey':
             signer = p['k2']
-    fields = cert_fields(ca, sig_alg, subject, CTYPE[ctype], sorted(princ),
-                         A, B, critb, extb, nonce=rnd.randbytes(32),
-                         signer=signer)
+    names = sorted(n for n in princ if n != 'odd')
+    if 'odd' in princ:
+        for o in odd_principals(rnd):
+            names.insert(rnd.randrange(len(names) + 1), o)
+    key_id = rnd.choice(KEY_IDS) if key_id is None else key_id
+    serial = rnd.choice(SERIALS) if serial is None else serial
+    fields = cert_fields(ca, sig_alg, subject, CTYPE[ctype], names,
+                         A, B, critb, extb, key_id=key_id, serial=serial,
+                         nonce=rnd.randbytes(32), signer=signer)
+    put = {'principals': names, 'key_id': key_id, 'serial': serial,
+           'valid_after': A, 'valid_before': B,
+           'force-command': 'ls -l' if 'force-command' in crit else None,
+           'source-address': ['10.0.0.0/8', '::1/128']
+           if 'source-address' in crit else None}
     blob = bytearray(b''.join(f for _, f in fields))
     if how == 'flip':
         blob[-1 - rnd.randrange(8)] ^= 1 << rnd.randrange(8)
     elif how == 'body':
         blob[4 + len(cert_alg(subject)) + 4 + rnd.randrange(32)] ^= 0x10
-    return bytes(blob), cert_alg(subject), how
+    return bytes(blob), cert_alg(subject), how, put
+
+
+def decoded_fields(cert):
+    """What asyncssh decoded, in the shape of `put` (None where the object
+    does not expose the field)."""
+    sa = cert.options.get('source-address')
+    return {'principals': list(cert.principals),
+            'key_id': getattr(cert, '_key_id', None),
+            'serial': getattr(cert, '_serial', None),
+            'valid_after': getattr(cert, '_valid_after', None),
+            'valid_before': getattr(cert, '_valid_before', None),
+            'force-command': cert.options.get('force-command'),
+            'source-address': [str(n) for n in sa] if sa else None}
 
 
 _VAL_STAGE = {'Invalid certificate type': 'vtype',
@@ -408,6 +459,12 @@ def ts(t):
     return time.strftime('%Y%m%d%H%M%S', time.gmtime(t)) + 'Z'
 
 
+# certificates whose principals never include PRINCIPAL (cert_odd)
+SSHSIG_ODD = [[''], [' '], ['', ''], [PRINCIPAL + ' '], ['Principal'],
+              [PRINCIPAL + ',x'], ['*'], ['prin*'], ['', 'x'],
+              [PRINCIPAL + '\x00'], ['principál']]
+
+
 class SigWorld:
     """Signatures and certificates for one key algorithm."""
 
@@ -427,12 +484,18 @@ class SigWorld:
                     valid_after=A - 5000, valid_before=A - 1000),
                 'cert_princ': self.ca.generate_user_certificate(
                     self.k, 'id', principals=['somebody-else'])}
+            for i, names in enumerate(SSHSIG_ODD):
+                self.certs[f'cert_odd{i}'] = \
+                    self.ca.generate_user_certificate(self.k, 'id',
+                                                      principals=names)
         self.sigs = {}
 
     def sig(self, signer, variant=0):
         key = signer
         if signer == 'cert_ok' and variant % 2:
             key = 'cert_ok_noprinc'
+        elif signer == 'cert_odd':
+            key = f'cert_odd{variant % len(SSHSIG_ODD)}'
         if key not in self.sigs:
             kp = self.k if signer == 'key' else (self.k, self.certs[key])
             self.sigs[key] = asyncssh.create_sshsig(kp, MSG, namespace=NS,
